@@ -55,7 +55,20 @@ pub fn sources(seed: u64) -> Vec<Src> {
     // source 2: one deflated entry that claims 5 GiB + 17 bytes through ZIP64 fields (9 stored bytes): a raw copy never
     // decodes, so the claim must travel into the copy's local header and central record alike
     let b2 = crate::props::c08::claimed_size_source((5u64 << 30) + 17);
-    [b0, b1, b2]
+    // source 3: the central directory lists the entries in another order than they lie in the file (and with gaps)
+    let spec3 = Spec {
+        entries: vec![
+            ESpec { ..e(b"one.bin", 0) },
+            ESpec { gap_before: 5, ..e(b"two.bin", 8) },
+            ESpec { ..e(b"three.bin", 12) },
+            ESpec { gap_before: 1, content: content_class(4, seed), ..e(b"four.bin", 93) },
+        ],
+        cd_order: Some(vec![3, 1, 0, 2]),
+        gap_before_cd: 3,
+        ..Default::default()
+    };
+    let b3 = build(&spec3).0;
+    [b0, b1, b2, b3]
         .into_iter()
         .map(|b| {
             let parsed = zipparse::parse(&b, &Opts::lenient()).expect("source does not parse");
@@ -86,7 +99,7 @@ pub fn alphabet(srcs: &[Src], reduced: bool) -> Vec<Op> {
                 v.push(Op::Copy { src: si, idx: i, raw_open: false, rename: None });
             }
             v.push(Op::Copy { src: si, idx: i, raw_open: true, rename: None });
-            if si == 1 || i % 17 == 3 {
+            if si == 1 || si == 3 || i % 17 == 3 {
                 v.push(Op::Copy { src: si, idx: i, raw_open: !supported || i % 2 == 0, rename: Some(renames[i % 3].clone()) });
             }
         }
@@ -253,6 +266,12 @@ pub fn check_seq_io(ops: &[Op], srcs: &[Src], src_bytes: &[Vec<u8>], seed: u64, 
 }
 
 fn replay(case: &Value, st: &mut Stats, seed: u64) {
+    if let Some(c) = case.get("failed_copy") {
+        let srcs = sources(seed);
+        let si = c["source"].as_u64().unwrap_or(0) as usize;
+        check_failed_copy(&srcs[si], c["entry"].as_u64().unwrap_or(0) as usize, c["fail_at_read"].as_u64().unwrap_or(0), c["raw_open"].as_bool().unwrap_or(false), seed, st, 0, si);
+        return;
+    }
     if case["kind"] == "sparse-copy" {
         check_sparse_copy(case["csize"].as_u64().unwrap_or(0), case["usize"].as_u64().unwrap_or(0), case["method"].as_u64().unwrap_or(0) as u16, st, 0);
         return;
@@ -327,6 +346,19 @@ pub fn run(args: &Args) -> i32 {
         ctx.stats.merge(s);
         ctx.stats.max_depth = 3;
     }
+    // a copy whose source reader fails part-way: every read index 0..=10 x 8 source entries x {decoding, raw} handles
+    {
+        let picks: Vec<(usize, usize)> = vec![(0, 0), (0, 4), (0, 13), (0, 29), (0, 44), (1, 0), (1, 6), (3, 0)];
+        let (picks_r, srcs_r2) = (&picks, &srcs);
+        let s = par_for((picks.len() * 11 * 2) as u64, 4, |t, st| {
+            let t = t as usize;
+            let (si, idx) = picks_r[t / 22];
+            let k = ((t / 2) % 11) as u64;
+            check_failed_copy(&srcs_r2[si], idx, k, t % 2 == 1, seed, st, (6 << 40) + t as u64, si);
+        });
+        ctx.stats.merge(s);
+        ctx.bound("failed_source_reads", json!({"source_entries": picks, "failing_read_index": "0..=10", "handles": ["by_index", "by_index_raw"], "oracle": "no panic; the error is reported; if finish() then succeeds the ordinary entries before and after read back as written"}));
+    }
     // sparse sources with more than 4 GiB of real stored bytes: compressed size beyond 32 bits with an uncompressed size that
     // fits, both beyond, and (thorough) a stored one; copied between two ordinary entries
     {
@@ -349,6 +381,107 @@ pub fn run(args: &Args) -> i32 {
     ctx.stats.transitions = ctx.stats.evals;
     ctx.stats.traces = ctx.stats.evals;
     ctx.finish()
+}
+
+/// A raw copy whose SOURCE reader fails at its k-th read call during the copy, between two ordinary entries; the caller
+/// carries on and finishes. Whatever becomes of the failed copy, the ordinary entries around it are unaffected.
+fn check_failed_copy(src: &Src, idx: usize, k: u64, raw_open: bool, seed: u64, st: &mut Stats, order: u64, si: usize) {
+    use std::io::{Read, Seek, SeekFrom, Write};
+    st.evals += 1;
+    struct Failing {
+        cur: std::io::Cursor<Vec<u8>>,
+        armed: std::rc::Rc<std::cell::Cell<Option<u64>>>,
+    }
+    impl Read for Failing {
+        fn read(&mut self, buf: &mut [u8]) -> std::io::Result<usize> {
+            if let Some(n) = self.armed.get() {
+                if n == 0 {
+                    self.armed.set(None);
+                    return Err(std::io::Error::new(std::io::ErrorKind::Other, "injected failure of the source reader"));
+                }
+                self.armed.set(Some(n - 1));
+            }
+            self.cur.read(buf)
+        }
+    }
+    impl Seek for Failing {
+        fn seek(&mut self, p: SeekFrom) -> std::io::Result<u64> {
+            self.cur.seek(p)
+        }
+    }
+    let case = || json!({"failed_copy": {"source": si, "entry": idx, "fail_at_read": k, "raw_open": raw_open}});
+    let normal = content_class(2, seed);
+    let armed = std::rc::Rc::new(std::cell::Cell::new(None));
+    let sink = SharedBuf::default();
+    let r = crate::util::guard(|| {
+        let mut zw = zip::ZipWriter::new(sink.clone());
+        zw.start_file("normal-0", FOpts { perm: Some(0o640), ..FOpts::m(8) }.to_zip()).map_err(|e| e.to_string())?;
+        zw.write_all(&normal).map_err(|e| e.to_string())?;
+        let copy_result = {
+            let mut ar = zip::ZipArchive::new(Failing { cur: std::io::Cursor::new(src.bytes.clone()), armed: armed.clone() }).map_err(|e| format!("source open: {e}"))?;
+            let f = if raw_open { ar.by_index_raw(idx) } else { ar.by_index(idx) }.map_err(|e| format!("source entry: {e}"))?;
+            armed.set(Some(k));
+            zw.raw_copy_file(f).map_err(|e| e.to_string())
+        };
+        let reached = armed.get().is_none();
+        armed.set(None);
+        let later = zw.start_file("normal-2", FOpts { perm: Some(0o640), ..FOpts::m(0) }.to_zip()).map_err(|e| e.to_string()).and_then(|_| zw.write_all(&normal).map_err(|e| e.to_string()));
+        let fin = zw.finish().map(|_| ()).map_err(|e| e.to_string());
+        Ok::<_, String>((copy_result, reached, later, fin))
+    });
+    let (copy_result, reached, later, fin) = match r {
+        Err(p) => {
+            st.viol(format!("failed-copy/panic/{}", panic_site(&p)), format!("source {si} entry {idx}, source read {k} fails: {p}"), case(), order);
+            return;
+        }
+        Ok(Err(e)) => {
+            st.class(&format!("failed-copy/setup:{}", &e[..e.len().min(20)]));
+            return;
+        }
+        Ok(Ok(x)) => x,
+    };
+    if !reached {
+        st.class("failed-copy/fault-not-reached");
+        return;
+    }
+    if copy_result.is_ok() {
+        st.viol("failed-copy/error-swallowed", format!("source {si} entry {idx}: the source reader failed at read {k} during the copy and raw_copy_file returned Ok"), case(), order);
+        return;
+    }
+    if later.is_err() || fin.is_err() {
+        st.class("failed-copy/writer-refuses-to-go-on");
+        return;
+    }
+    // finish() succeeded: the ordinary entries must be what was written to them
+    let bytes = sink.snapshot();
+    let crc = crate::reference::crc32::crc32(&normal);
+    let got = crate::util::guard(|| {
+        let mut ar = zip::ZipArchive::new(std::io::Cursor::new(&bytes[..])).map_err(|e| format!("open: {e}"))?;
+        let mut out = vec![];
+        for n in ["normal-0", "normal-2"] {
+            let mut f = ar.by_name(n).map_err(|e| format!("{n}: {e}"))?;
+            let meta = (f.size(), f.crc32(), f.unix_mode());
+            let mut v = vec![];
+            let rd = f.read_to_end(&mut v).map(|_| v).map_err(|e| e.to_string());
+            out.push((n, meta, rd));
+        }
+        Ok::<_, String>(out)
+    });
+    match got {
+        Ok(Ok(list)) => {
+            let mut ok = true;
+            for (n, meta, rd) in list {
+                if meta != (normal.len() as u64, crc, Some(0o100640)) || rd.as_ref().ok() != Some(&normal) {
+                    ok = false;
+                    st.viol("failed-copy/neighbour-damaged", format!("source {si} entry {idx}, source read {k} failed, the caller carried on and finish() succeeded: ordinary entry {n} now records size {} crc {:#x} mode {:?} and reads {:?} (written: {} bytes, crc {crc:#x})", meta.0, meta.1, meta.2, rd.as_ref().map(|v| v.len()), normal.len()), case(), order);
+                    break;
+                }
+            }
+            st.class(if ok { "failed-copy/neighbours-intact" } else { "FAILED-COPY-DAMAGES-NEIGHBOUR" });
+        }
+        Ok(Err(e)) => st.viol("failed-copy/neighbours-unreadable", format!("source {si} entry {idx}, source read {k} failed, finish() succeeded, then: {e}"), case(), order),
+        Err(p) => st.viol(format!("failed-copy/panic/{}", panic_site(&p)), p, case(), order),
+    }
 }
 
 /// Raw copy of a sparse source entry with `csize` stored (zero) bytes claiming `usize_` uncompressed bytes under `method`,
